@@ -591,6 +591,20 @@ func runC18(c *mc.Ctx) {
 			}
 			xs = append(xs, cas)
 		}
+		// amounts over the whole int64 range, negative ones included (the wire type is signed; BIP69
+		// orders amounts as numbers): every ordered pair and triple over nine values, equal scripts -
+		// a comparison by subtraction overflows when two amounts are 2^63 or more apart
+		{
+			av := []int64{math.MinInt64, -5_000_000_000_000_000_000, -2, -1, 0, 1, 5_000_000_000_000_000_000, math.MaxInt64 - 1, math.MaxInt64}
+			for _, a := range av {
+				for _, b := range av {
+					xs = append(xs, c18Case{XOuts: []c18XOut{{a, "51"}, {b, "51"}}})
+					for _, d := range av {
+						xs = append(xs, c18Case{XOuts: []c18XOut{{a, "51"}, {b, "51"}, {d, "52"}}})
+					}
+				}
+			}
+		}
 		// long scripts (copy fidelity of the sorted copy): one output script / signature script of a
 		// length around 2^8 and 2^16 next to short ones, sorted and unsorted
 		for _, n := range []int{255, 256, 257, 4096, 65535, 65536, 65537, 70000, 200000} {
